@@ -26,7 +26,10 @@ Exclusions / soundness notes
   * Early EOF is not generated together with copy-data: the length check is
     the server's in that mode (the client only learns OK/failure).
   * With sparse=True an early EOF may return normally (property text), the
-    destination must then equal the bytes that really exist.
+    destination must then equal the bytes that really exist, or those bytes
+    zero-extended to the announced size (a source ending early cannot be
+    told from one ending in a hole; corrected after the trailing-hole
+    repair in /repo made the second outcome the actual one).
   * The file position after a call with an explicit offset is not documented;
     it is treated as unknown until the next absolute seek.  A single-request
     read (size <= block_size, or block_size=None) may legitimately return a
@@ -379,6 +382,16 @@ def run_xfer(case) -> CaseResult:
                 else:
                     mf = model.files.get(where)
                     got = bytes(mf.data) if mf is not None else None
+
+                if sparse and f['true_len'] is not None and got is not None \
+                        and got == want + bytes(len(f['content']) - len(want)):
+                    # With sparse=True the announced size is the only
+                    # information about a trailing hole, so a source that
+                    # ends early is indistinguishable from one ending in a
+                    # hole: zero-extension to the announced size is the
+                    # other admissible destination
+                    labels.add('early-eof-as-trailing-hole')
+                    continue
 
                 check_bytes(got, want, '%s %s' % (op, f['name'].decode()),
                             'data-mismatch:' + op,
